@@ -389,6 +389,11 @@ bool Instance::configure_tx_txin() {
                 fprintf(stderr, "sig script did not contain a push op as expected\n");
                 return false;
             }
+            // BIP141: the scriptSig of a P2SH-wrapped witness program must be exactly the push of the redeem script
+            if (scriptSig != (CScript() << pushval)) {
+                fprintf(stderr, "sig script must be exactly a push of the witness program (witness malleated): %s\n", HexStr(scriptSig).c_str());
+                return false;
+            }
             validation = CScript(pushval.begin(), pushval.end());
             hashsrc = Value(pushval);
             CScript::const_iterator it = scriptPubKey.begin();
